@@ -582,7 +582,7 @@ def parseChunk(raw):  # reading transfer encoded raw
         for ext in exts:
             ext = ext.strip()
             name, sep, value = ext.partition(b'=')
-            parms[name.strip()] = value.strip() or None
+            parms[bytes(name.strip())] = value.strip() or None  # key must be hashable
 
     if size == 0:  # last chunk so parse trailing headers if any
         leaderParser = parseLeader(raw=raw,
